@@ -91,8 +91,8 @@ def RgBuilder.drain (b : RgBuilder) : RgBuilder :=
 /-- Replace the last element of a non-empty list. -/
 def setLast (l : List Rng) (r : Rng) : List Rng := l.dropLast ++ [r]
 
-/-- `RangeMocBuilder::push` (`sh` = shift of the builder depth). -/
-def RgBuilder.push (sh cap : Nat) (b : RgBuilder) (r : Rng) : RgBuilder :=
+/-- `RangeMocBuilder::push` of a non-empty range (`sh` = shift of the builder depth). -/
+def RgBuilder.pushNE (sh cap : Nat) (b : RgBuilder) (r : Rng) : RgBuilder :=
   let nr := degradeRange sh r
   let b' :=
     match b.buff.getLast? with
@@ -106,6 +106,12 @@ def RgBuilder.push (sh cap : Nat) (b : RgBuilder) (r : Rng) : RgBuilder :=
         { b with sorted := sorted', buff := setLast b.buff (s, e) }
     | none => { b with buff := b.buff ++ [nr] }
   if b'.buff.length = cap then b'.drain else b'
+
+/-- `RangeMocBuilder::push` (repaired): an empty range (`start >= end`) denotes the empty set and is ignored —
+    it used to be degraded like the others, i.e. kept as an empty range when aligned on the builder depth
+    and turned into a whole cell otherwise. -/
+def RgBuilder.push (sh cap : Nat) (b : RgBuilder) (r : Rng) : RgBuilder :=
+  if r.1 < r.2 then b.pushNE sh cap r else b
 
 def RgBuilder.intoMoc (b : RgBuilder) : List Rng := (b.drain.moc).getD []
 
